@@ -131,4 +131,11 @@ PROPS = {
         note="Deviation-bounded (not all interleavings); scheduling points are the instrumented synchronisation operations and seam calls; un-instrumented code between two points is atomic.",
         parts=[part("sched", "internal/corerad", "TestVerifC08", mode="sched", gomaxprocs=2, shards={"quick": 8, "thorough": 16})],
     ),
+    "C07": dict(
+        level="model_checking", engine="sched",
+        technique="stateless exploration of all random-delay draws x delay-bounded goroutine interleavings of the instrumented real Advertiser for solicitation arrival patterns (bursts, repeats, ::, collisions with the periodic tick); conservation, timing, destination, payload and counters checked on every execution",
+        text="For each arrival pattern and unicast_only setting, all combinations of delay draws {0, mid, max} and all schedules within 1 (quick) / 2 (thorough, budgeted) deviations are executed on the real advertiser; per source the unicast answers must equal the solicitations read, each within [0,500ms) and carrying the reference RA; :: is served by an all-nodes RA within 3 s; a unicast-only interface never writes to a multicast destination; sent/received/error counters equal the observed transmissions.",
+        note="Arrival patterns are a fixed list of 7; draws restricted to {0, n/2, n-1}; deviation-bounded schedules.",
+        parts=[part("sched", "internal/corerad", "TestVerifC07", mode="sched", gomaxprocs=2, shards={"quick": 12, "thorough": 16})],
+    ),
 }
